@@ -126,7 +126,7 @@ def main():
         for e in (eps or []):
             if e not in ep_classes: raise GenError('config.rst: section %s names unknown entry point %s' % (name, e))
     L = []
-    L.append('(* GENERATED by tools/gen/gen_configclasses.py from %s -- do not edit *)' % REPO)
+    L.append('(* GENERATED by tools/gen/gen_configclasses.py from the nbdime working tree -- do not edit *)')
     L.append('From Coq Require Import List NArith ZArith String.')
     L.append('From NB Require Import Base.Json Diff.Codec.')
     L.append('Import ListNotations.')
